@@ -291,7 +291,7 @@ func gen(kind string) func(t *rapid.T) Case {
 	return func(t *rapid.T) Case {
 		c := Case{Kind: kind}
 		if kind == "treeset" {
-			c.Cmp = []string{dom.Nat, dom.Rev, dom.Scr}[rapid.IntRange(0, 2).Draw(t, "cmp")]
+			c.Cmp = dom.TotalCmps[rapid.IntRange(0, len(dom.TotalCmps)-1).Draw(t, "cmp")]
 		}
 		vals := func(label string, maxN int) []int {
 			return rapid.SliceOfN(rapid.IntRange(0, 9), 0, maxN).Draw(t, label)
